@@ -77,11 +77,30 @@ def _norm_kw(kw):
     return kw
 
 
-def cases(tier, seed):
-    lst = THOROUGH if tier == 'thorough' else QUICK
+# the same shapes on other kinds of grid (irregular step lengths, other main units, zone-aware): gridv is applied by shapes.grid
+GRIDV_SKIP = {'coarse', 'periodic'}     # their '2h' rasters presuppose an hourly grid (covered on DST grids in C13/C19)
+GRIDV_QUICK = [('two_node', 'day_d_cet_dst'), ('multicommodity', 'month_d'), ('plant_fuel', 'quarter_min'), ('mixed_discount_rates', 'day_h_useast_fall')]
+
+
+def grid_variants(lst, tier, shape_of, quick_pairs, skip=GRIDV_SKIP):
+    from .. import shapes
     out = []
     for cid, kw, split, level in lst:
-        shape = SHAPE_OF.get(cid, cid)
+        shape = shape_of.get(cid, cid)
+        if split is not None or shape in skip or 'freq' in kw or 'unit' in kw:
+            continue
+        for gv in shapes.GRID_VARIANTS:
+            if tier == 'thorough' or (cid, gv) in quick_pairs:
+                out.append(('%s@%s' % (cid, gv), dict(kw, gridv=gv), split, level))
+    return out
+
+
+def cases(tier, seed):
+    lst = THOROUGH if tier == 'thorough' else QUICK
+    lst = lst + grid_variants(lst, tier, SHAPE_OF, GRIDV_QUICK)
+    out = []
+    for cid, kw, split, level in lst:
+        shape = SHAPE_OF.get(cid.split('@')[0], cid.split('@')[0])
         kw = dict(kw)
         out.append((cid, dict(shape=shape, kw=kw, split=split, level=level)))
     return out
